@@ -181,15 +181,20 @@ AuthStep(w, win, op) ==
     IN  [text |-> Splice(w, win, a2), win |-> <<win[1], Len(a2)>>]
 (***************************************************************************)
 (* One public mutating call on an owned buffer of family fam and kind k    *)
-(* ("ref" | "full") holding text w: the set of admissible texts afterwards.*)
-(* o = [op |-> name, arg |-> text | NULL]                                  *)
+(* ("ref" | "full", or "path" / "authority" for a handle on a stand-alone  *)
+(* path or authority buffer) holding text w: the set of admissible texts   *)
+(* afterwards.  o = [op |-> name, arg |-> text | NULL]                     *)
 (***************************************************************************)
 PathOpOf(o) == IF o.op \in {"push", "sym_push"} THEN <<o.op, o.arg>> ELSE <<o.op>>
 
 \* the set of admissible texts after the operation
+EditType(fam, k) ==
+    CASE k = "path"      -> PathType(fam)
+      [] k = "authority" -> (IF fam = "uri" THEN "UAuthority" ELSE "IAuthority")
+      [] OTHER           -> RefType(fam, k)
 EditApply(fam, k, w, o) ==
-    LET P   == Parts(w)
-        ctx == CtxOf(fam, k, w)
+    LET P   == IF k = "path" THEN MkParts(NULL, NULL, w, NULL, NULL) ELSE Parts(w)
+        ctx == IF k = "path" THEN StandAlone(fam) ELSE CtxOf(fam, k, w)
     IN  CASE o.op = "set_scheme"    -> SetScheme(w, o.arg)
           [] o.op = "set_authority" -> SetAuthority(w, o.arg)
           [] o.op = "set_path"      -> SetPath(w, o.arg)
@@ -197,7 +202,7 @@ EditApply(fam, k, w, o) ==
           [] o.op = "set_fragment"  -> SetFragment(w, o.arg)
           [] o.op = "resolve"       -> ResolveSet(fam, o.arg, w)
           [] o.op \in {"set_userinfo", "set_host", "set_port"} ->
-                {AuthStep(w, AuthWindow(w), <<o.op, o.arg>>).text}
+                {AuthStep(w, IF k = "authority" THEN <<0, Len(w)>> ELSE AuthWindow(w), <<o.op, o.arg>>).text}
           [] OTHER ->
                 LET ab == AbsOf(ctx, P.path)
                 IN  UNION {{Embed(ctx, c) : c \in AdmissibleStep(ctx, HasLeadDot(P.path), ab, A)}
